@@ -781,7 +781,17 @@ class UniqueCall(Entry):
         def f():
             res = nu.unique(arr) if c["values"] is None else nu.unique(arr, values=c["values"])
             res = np.atleast_1d(res)
-            is_vals = bool(c["values"]) if arr.dtype == np.dtype("i8") else (res.dtype == arr.dtype and res.dtype != np.dtype("i8"))
+            if arr.dtype != np.dtype("i8"):
+                is_vals = res.dtype == arr.dtype                 # keep[] is always int64
+            elif c["values"] is not None:
+                is_vals = bool(c["values"])
+            else:
+                # int64 input, keyword omitted: the result is values iff it is what values=True returns and not what
+                # values=False returns (only the tag of the answer is decided this way, never its content)
+                rt, rf = np.atleast_1d(nu.unique(arr, values=True)), np.atleast_1d(nu.unique(arr, values=False))
+                is_vals = np.array_equal(res, rt) and not np.array_equal(res, rf)
+            if not is_vals and any(int(i) < 0 for i in res):
+                is_vals = True                                   # an index is never negative
             return {"vals": from_np(c["kind"], res)} if is_vals else {"idx": [int(i) for i in res]}
         return {"argsort": s, "result": core.guarded(f)}
 
